@@ -583,6 +583,8 @@ func (e *Enforcer) BuildRoleLinks() error {
 	if e.rmMap == nil {
 		return errors.New("rmMap is nil")
 	}
+	// the links are about to change: compiled matchers memoise g() results of the old links
+	e.invalidateMatcherMap()
 	for _, rm := range e.rmMap {
 		err := rm.Clear()
 		if err != nil {
